@@ -121,7 +121,7 @@ def _eqv(x, y):
     return abs(float(x) - float(y)) < 1e-12
 
 
-def run(sx, n, preserve, mode, flipped, sections=1, lengths="distinct"):
+def run(sx, n, preserve, mode, flipped, sections=1, lengths="distinct", move=False):
     A, B, d = _points(sx, lengths)
     opA = _loft(A)
     if flipped:
@@ -170,6 +170,16 @@ def run(sx, n, preserve, mode, flipped, sections=1, lengths="distinct"):
     except (ValueError, ZeroDivisionError, NaNProduced) as e:
         sx.reach("rejected")
         return "rejected:" + type(e).__name__
+    if move:
+        # the mesh is graded, its vertices are moved (x stretched by a factor that grows with z: every x edge gets another
+        # length), and it is graded again: the gradings must be those of the present geometry
+        def moved(p):
+            return np.array([p[0] * (1.5 + 0.2 * p[2]), p[1], p[2]], dtype=p.dtype)
+        for v in mesh.vertices:
+            v.move_to(moved(v.position))
+        A = np.array([moved(p) for p in A], dtype=A.dtype)
+        B = np.array([moved(p) for p in B], dtype=B.dtype)
+        mesh.grade()
     sx.reach("graded")
     bA, bB = mesh.blocks
     tag = f"n={n},{preserve},{mode},{'flipped' if flipped else 'aligned'},sections={sections}"
@@ -195,6 +205,13 @@ def run(sx, n, preserve, mode, flipped, sections=1, lengths="distinct"):
                 cells = cell_sizes(sx, L, _oriented(w, pts[i]))
                 got = cells[0] if preserve == "start_size" else cells[-1]
                 conds.append(sx.close(got, want, 1e-7))
+        if move:
+            sx.prove(sx.all(conds[:4]), f"{tag}: graded again after its vertices moved, the chopped block has the preserved "
+                     f"{preserve} on its four edges (present lengths)", f"C04:preserve:after-move:chopped:{_cls(preserve, flipped, sections)}")
+            sx.prove(sx.all(conds[4:]), f"{tag}: graded again after its vertices moved, the block the chop propagates to has the "
+                     f"preserved {preserve} on its four edges (present lengths)",
+                     f"C04:preserve:after-move:propagated:{_cls(preserve, flipped, sections)}")
+            return "graded"
         sx.prove(sx.all(conds), f"{tag}: the preserved {preserve} is realised on the four edges of the chopped block and of the "
                  "block it propagates to, at the same geometric end", f"C04:preserve:{_cls(preserve, flipped, sections)}")
     if preserve in ("start_size", "end_size") and sections == 1 and mode == "total":
@@ -260,6 +277,9 @@ def jobs(tier, seed):
             #  bracket comparisons of the size relations within minutes)
             js.append({"name": f"n=2|{preserve}|total|flipped={flipped}|ground twin only", "fn": "run", "symbolic": False,
                        "params": {"n": 2, "preserve": preserve, "mode": "total", "flipped": flipped}})
+    for preserve in ("start_size", "end_size"):
+        js.append({"name": f"n=2|{preserve}|size|flipped=False|graded, moved, graded again|ground twin only", "fn": "run",
+                   "symbolic": False, "params": {"n": 2, "preserve": preserve, "mode": "size", "flipped": False, "move": True}})
     for flipped in (False, True):
         js.append({"name": f"two-sections|n=2|c2c|flipped={flipped}", "fn": "run",
                    "params": {"n": 2, "preserve": "c2c_expansion", "mode": "c2c", "flipped": flipped, "sections": 2}})
